@@ -19,7 +19,7 @@ Parts
   B  real replays without any cloning: every sequence of length <= 2 from the three initial grids,
      and random sequences of length <= 60 on the small universe.
   C  random sequences of length <= 60 on grids of <= 200 blocks built from geometries
-     (rectangular all atmosphere types, refined = irregular, shipped g7 reduced, gmsh), incl. minc.
+     (rectangular all atmosphere types, uneven surface; irregular: shipped g7 (triangles and quadrilaterals) reduced, gmsh), incl. minc.
 
 A sequence stops at the first step whose post-state is not well formed (requires wf(old)).
 Failure key = "<op>-<situation>:<clause> <concrete op>", the situation being worked out by the
@@ -28,6 +28,11 @@ harness from the pre-state (e.g. add_block-replace-connected).
 import sys, os, json, time, random, itertools, copy, traceback
 import warnings
 warnings.filterwarnings('ignore')
+if __name__ == '__main__' and os.environ.get('PYTHONHASHSEED') != '0':
+    # the library iterates over sets of names (e.g. t2grid.check picks max(set(...))); pin the string hash so
+    # that the output is a function of <tier> <seed> only
+    os.environ['PYTHONHASHSEED'] = '0'
+    os.execv(sys.executable, [sys.executable, '-W', 'ignore'] + sys.argv)
 REPO = os.environ.get('PYTOUGH_REPO', '/repo')
 sys.path.insert(0, REPO)
 import io, contextlib
@@ -619,7 +624,7 @@ def some_perms(seq):
     return out
 
 
-def gen_ops(vw):
+def gen_ops(vw, variants=True):
     R, Bfull, C = vw
     B = [b[0] for b in Bfull]
     present = [n for n in NAMES if n in B]
@@ -651,7 +656,7 @@ def gen_ops(vw):
             continue
         ops.append(('rename_blocks', m, 'grid'))
         cyc = cycles_of(dict(m), set(B))
-        if cyc in ('swap', 'cycle', 'chain'):
+        if variants and cyc in ('swap', 'cycle', 'chain'):
             ops.append(('rename_blocks', m, 'dat'))
             ops.append(('rename_blocks', m, 'dat-invert'))
             if cyc != 'chain':
@@ -722,7 +727,7 @@ def apply_cont(g, op):
 
 def expand(task):
     """Worker: expands a chunk of frontier states [(initname, history)]; returns new views and stats."""
-    chunk, last = task
+    chunk, last, variants = task
     st = Stats()
     new = {}
     npairs = 0
@@ -733,7 +738,7 @@ def expand(task):
             st.failure('harness:replay %s' % initname, 'replay raised %r' % e, history, initname)
             continue
         vw = view(g0)
-        for op in gen_ops(vw):
+        for op in gen_ops(vw, variants):
             npairs += 1
             g = clone(g0)
             g2, post = contract_step(g, op, history, initname, st, vw)
@@ -796,8 +801,35 @@ def random_small(task):
 # part C: random sequences on grids from geometries
 
 
+
+def canon_geo(geo):
+    """mulgrid.refine / from_gmsh / reduce go through sets of objects, so the ORDER and ORIENTATION of the
+    geometry's column connections differ from run to run; re-add them sorted by name so that the harness
+    output is a function of <tier> <seed> only."""
+    cons = list(geo.connectionlist)
+    pairs = sorted(tuple(sorted((c.column[0].name, c.column[1].name))) for c in cons)
+    for c in cons:
+        geo.delete_connection((c.column[0].name, c.column[1].name))
+    for a, b in pairs:
+        geo.add_connection(connection([geo.column[a], geo.column[b]]))
+    geo.identify_neighbours()
+    geo.setup_block_name_index()
+    geo.setup_block_connection_name_index()
+    return geo
+
+
+def ordered_reduce(geo, keep):
+    """mulgrid.reduce with a deterministic order of deletion."""
+    keepnames = set(c.name for c in keep)
+    for name in [c.name for c in geo.columnlist if c.name not in keepnames]:
+        geo.delete_column(name)
+    geo.check(fix=True, silent=True)
+    geo.setup_block_name_index()
+    geo.setup_block_connection_name_index()
+
+
 def geometry_grid(rnd):
-    kind = rnd.choice(['rect', 'rect', 'rect-surface', 'refined', 'g7', 'gmsh'])
+    kind = rnd.choice(['rect', 'rect', 'rect-surface', 'g7', 'g7', 'gmsh'])     # (mulgrid.refine names its new columns in a run-dependent order: not used)
     desc = {'kind': kind}
     if kind in ('rect', 'rect-surface', 'refined'):
         while True:
@@ -820,12 +852,13 @@ def geometry_grid(rnd):
         k = rnd.randint(3, 28)
         start = rnd.randint(0, geo.num_columns - k)
         desc.update(columns=[start, start + k])
-        geo.reduce(geo.columnlist[start:start + k])
+        ordered_reduce(geo, geo.columnlist[start:start + k])
     else:
         geo = mulgrid().from_gmsh(os.path.join(REPO, 'tests', 'mulgrid', 'gmsh2_2.msh'), [3.], atmos_type=rnd.choice([0, 2]))
         k = rnd.randint(10, 90)
         desc.update(columns=k)
-        geo.reduce(geo.columnlist[:k])
+        ordered_reduce(geo, geo.columnlist[:k])
+    canon_geo(geo)
     g = t2grid().fromgeo(geo)
     # three rock types spread over the blocks
     for rn in ROCKS:
@@ -1032,7 +1065,9 @@ def main():
                 frontier = [x for x in frontier if x[0] != 'ring4' or rnd.random() < 0.25]
             rnd.shuffle(frontier)
             csize = max(1, min(200, len(frontier) // (nproc * 4) + 1))
-            tasks = [(frontier[i:i + csize], last) for i in range(0, len(frontier), csize)]
+            # the t2data / fix_blocknames=False entry points of rename_blocks are enumerated at every level but the last
+            # (the last level is by far the largest, and they reach the same t2grid code)
+            tasks = [(frontier[i:i + csize], last, not last) for i in range(0, len(frontier), csize)]
             cand = {}
             npairs = 0
             for new, st, n in pool.imap_unordered(expand, tasks):
